@@ -492,7 +492,11 @@ class History(object):
         kept = [n for n in nums if n < od]
         moved = [n for n in nums if n >= od]
         # the rule of the statement: a kept line at or above `new`, or a new number above 65529, is refused
-        if st < 1:
+        if any(v is not None and v > 65529 for v in (new, old, step)):
+            # not a line number at all (line numbers are 0..65529): `65530` reads as the number 6553 followed
+            # by 0, so the statement is a Syntax error before RENUM's own range logic is reached
+            exp, why = 'e2', 'unrepresentable-argument'
+        elif st < 1:
             exp, why = 'e5', 'step0'
         elif kept and kept[-1] >= nw:
             exp, why = 'e5', 'overlap'
@@ -511,6 +515,8 @@ class History(object):
             return
         if out == b'Illegal function call\xff\r\n':
             status = 'e5'
+        elif out == b'Syntax error\xff\r\n':
+            status = 'e2'
         elif re.match(br'\A(Undefined line \d+ in \d+\r\n)*\Z', out):
             status = 'ok'
         else:
@@ -521,10 +527,10 @@ class History(object):
             self.fail('renum:status:%s-for-%s' % (status, exp), i,
                       '%r with lines %r answered %r, expected %s (%s)' % (cmd, nums[:40], out[:100], exp, why))
             return
-        if status == 'e5':
+        if status in ('e5', 'e2'):
             # refused: nothing may have changed (observe compares everything with the old reference)
-            self.model_ops.append('x:5')
-            self.observe(i, 'e5')
+            self.model_ops.append('x:%s' % status[1:])
+            self.observe(i, status)
             return
         prog = self.prog
         code = prog.bytecode.getvalue()[:prog.size()]
@@ -807,6 +813,11 @@ def renum_args(rng, nums):
         new = (kept[-1] + 1 if kept else rng.choice([1, 2, 10]))
         new = min(new, 65000)       # (new >= 1 keeps the step an enterable number <= 65529)
         step = (65529 - new) // j + 1
+    if rng.random() < 0.06:
+        # an argument that is not a line number (0..65529)
+        bad = rng.choice([65530, 65531, 65535, 65536, 70000, 99999])
+        which = rng.randrange(3)
+        new, old, step = (bad if which == 0 else new), (bad if which == 1 else old), (bad if which == 2 else step)
     return new, old, step
 
 
@@ -904,7 +915,8 @@ def failing_family(quick):
     for lines in shapes:
         k = len(lines)
         refused = [['r', min(1, lines[0]), None, 65529],                 # the 2nd line would get a number > 65529
-                   ['r', 0, None, 65529 // (k - 1) + 1],                 # only the last line would
+                   ['r', 1, None, 65528 // (k - 1) + 1],                 # only the last line would (step <= 65529)
+                   ['r', 0, None, 65530], ['r', 65535, None, None], ['r', None, 65536, 1],   # not line numbers: Syntax error
                    ['r', lines[k // 2 - 1] + 1, lines[k // 2], 65529],   # the same with kept lines below `old`
                    ['r', lines[0], lines[1], None],                      # a kept line at `new`
                    ['r', lines[1], lines[-1], 1],                        # kept lines above `new`
